@@ -19,6 +19,9 @@ def configs(tier):
         Config(front="wsgi", backend="tree", prefix="/", threshold=0, features=feats, bodies=bodies, props=props, oracles={"C02"}),
         Config(front="aio", backend="bare", prefix="/dav/", threshold=0, features=feats, bodies=bodies, props=props, oracles={"C02"}),
     ]
+    # a name containing a literal "%41" next to the name it would decode to: no view may confuse the two
+    out.append(Config(front="wsgi", backend="tree", prefix="/dav/", threshold=0, features={"views", "head"}, names={"cal": ["ev%41.ics", "evA.ics"], "ab": [], "c2": []},
+                      bodies={"cal": ["X", "Z"], "ab": [], "c2": []}, oracles={"C02"}, label="tree/wsgi@/dav/+percent-names"))
     if tier == "thorough":
         out += [
             Config(front="aio", backend="tree", prefix="/a/b/", threshold=0, features=feats, bodies=bodies, props=props, oracles={"C02"}),
